@@ -147,4 +147,105 @@ Section P.
       rewrite Hd, Hfn. cbn [length]. split; [lia|]. split; [exact Hi|exact Hrest].
     - rewrite Hsw. exact H.
   Qed.
+
+  Lemma image_spec_shift_stored st b r s s' kk t img cl :
+    abs_put st b = st ++ [b] -> (3 <= kk)%nat ->
+    done_puts s (b :: r) kk = S (done_puts s' r (kk - 3)) ->
+    sess_writes st (b :: r) = put_wr (blen (live_file st)) (fst b) (snd b) ++ sess_writes (st ++ [b]) r ->
+    image_spec (st ++ [b]) r s' (kk - 3) t img cl -> image_spec st (b :: r) s kk t img cl.
+  Proof.
+    intros Hst Hk Hd Hsw H. unfold image_spec in *.
+    assert (Hfn : forall j, abs_puts st (firstn (S j) (b :: r)) = abs_puts (st ++ [b]) (firstn j r)).
+    { intros j. cbn [firstn]. unfold ResumeInv.abs_puts. cbn [fold_left]. rewrite Hst. reflexivity. }
+    destruct cl as [[]|]; try exact H.
+    - destruct H as (j & Hj & Hi). exists (S j). rewrite Hd, Hfn. cbn [length]. split; [lia|exact Hi].
+    - destruct H as (j & c & d & p & i & Hj & Hi & Hrest). exists (S j), c, d, p, i.
+      rewrite Hd, Hfn. cbn [length]. split; [lia|]. split; [exact Hi|exact Hrest].
+    - rewrite Hsw, app_length, put_wr_length. lia.
+  Qed.
+
+  Lemma stored_now_parse st b : stored_now st b = true -> exists p, cid_parse (fst b) = Some p.
+  Proof. unfold stored_now. destruct (cid_parse (fst b)) as [p|]; [eexists; reflexivity|discriminate]. Qed.
+
+  Lemma take_app_add (a b0 : bytes) i : take (blen a + i) (a ++ b0) = a ++ take i b0.
+  Proof. rewrite take_app_ge by lia. f_equal. f_equal. lia. Qed.
+
+  Theorem put_phase puts : forall s st F kk t, Inv s st -> budget st puts ->
+    image_spec st puts s kk t (image (live_file st) (sess_writes st puts ++ F) kk t) (put_class s puts kk t).
+  Proof.
+    induction puts as [|[c d] r IH]; intros s st F kk t HI Hb.
+    - cbn [put_class image_spec sess_writes length]. lia.
+    - unfold ResumeInv.budget in Hb. change (@cons block (c, d) r) with (@app block [(c, d)] r) in Hb.
+      rewrite enc_sections_app, blen_app in Hb.
+      pose proof (abs_put_size o nilroots roots st (c, d)) as Hsz.
+      assert (Hfit : fits (abs_put st (c, d))) by (unfold ResumeInv.fits; unfold block in *; lia).
+      pose proof (fe_put_inv hdrdec k o nilroots roots Hpar s st (c, d) HI Hfit) as HI'.
+      pose proof (fe_put_loglen s st c d HI Hfit) as Hn.
+      cbn [put_class]. rewrite Hn.
+      assert (Hdone : done_puts s (@cons block (c, d) r) kk =
+                      if ((if stored_now st (c, d) then 3 else 0) <=? kk)%nat
+                      then S (done_puts (fst (fe_put s (c, d))) r (kk - (if stored_now st (c, d) then 3 else 0)))
+                      else O).
+      { cbn [done_puts]. rewrite Hn. reflexivity. }
+      rewrite abs_put_stored in *.
+      destruct (stored_now st (c, d)) eqn:Est.
+      + (* the section is written: three appends *)
+        assert (Hsw : sess_writes st (@cons block (c, d) r) =
+                      put_wr (blen (live_file st)) c d ++ sess_writes (st ++ [(c, d)]) r).
+        { cbn [sess_writes fst snd]. rewrite Est, abs_put_stored, Est. reflexivity. }
+        destruct (3 <=? kk)%nat eqn:E3.
+        * rewrite Hsw, <- app_assoc.
+          apply (image_spec_shift_stored st (c, d) r s (fst (fe_put s (c, d))) kk t);
+            [rewrite abs_put_stored, Est; reflexivity|apply Nat.leb_le; exact E3|exact Hdone|exact Hsw|].
+          assert (Himg : forall W, image (live_file st) (put_wr (blen (live_file st)) c d ++ W) kk t
+                                    = image (live_file (st ++ [(c, d)])) W (kk - 3) t).
+          { intros W. replace kk with (length (put_wr (blen (live_file st)) c d) + (kk - 3))%nat at 1
+              by (rewrite put_wr_length; apply Nat.leb_le in E3; lia).
+            rewrite image_app, put_wr_replay, <- live_file_snoc. reflexivity. }
+          rewrite Himg.
+          apply IH; [exact HI'|]. unfold ResumeInv.budget. rewrite enc_sections_app, blen_app. unfold block in *. lia.
+        * rewrite Hsw, <- app_assoc. rewrite image_prefix by (rewrite put_wr_length; lia).
+          rewrite image_appends by apply put_wr_appends. rewrite put_wr_stream.
+          destruct (stored_now_parse _ _ Est) as (p & Hp). cbn [fst] in Hp.
+          pose proof (cid_parse_len c p Hp) as Hc2.
+          pose proof (uv_size_pos (blen c + blen d)) as Huv.
+          assert (Hfit1 : fits (abs_puts st (firstn 0 (@cons block (c, d) r)) ++ [(c, d)])) by exact Hfit.
+          assert (Hst1 : abs_puts st (firstn 1 (@cons block (c, d) r)) = st ++ [(c, d)]).
+          { cbn [firstn]. unfold ResumeInv.abs_puts. cbn [fold_left]. rewrite abs_put_stored, Est. reflexivity. }
+          assert (Hsec : blen (enc_section c d) = uv_size (blen c + blen d) + blen c + blen d).
+          { rewrite blen_enc_section_eq. unfold section_size, ld_size. lia. }
+          unfold put_wr, ld_chunks. cbn [fold_left chunk_log img_len].
+          replace (0 + blen c + blen d) with (blen c + blen d) by lia. rewrite blen_put_uv.
+          rewrite take_app_add.
+          destruct kk as [|[|[|kk']]]; [| | |lia]; cbn [image_spec].
+          -- (* inside / before the length varint *)
+             destruct (t =? 0) eqn:Et.
+             ++ exists 0%nat. split; [rewrite Hdone; cbn [length]; lia|].
+                replace (N.min t (uv_size (blen c + blen d))) with 0 by lia. rewrite take_0, app_nil_r. reflexivity.
+             ++ exists 0%nat, c, d, p, (N.min t (uv_size (blen c + blen d))).
+                split; [rewrite Hdone; cbn [length]; lia|]. split; [reflexivity|].
+                split; [exact Hp|]. split; [lia|]. split; [lia|exact Hfit1].
+          -- (* inside the CID *)
+             destruct (t <? blen c) eqn:Et.
+             ++ exists 0%nat, c, d, p, (uv_size (blen c + blen d) + N.min t (blen c)).
+                split; [rewrite Hdone; cbn [length]; lia|]. split; [reflexivity|].
+                split; [exact Hp|]. split; [lia|]. split; [lia|exact Hfit1].
+             ++ destruct (blen d =? 0) eqn:Ed; [|exact I].
+                exists 1%nat. split; [rewrite Hdone; cbn [length]; lia|].
+                rewrite Hst1, live_file_snoc. f_equal. apply take_ge. lia.
+          -- (* inside the data *)
+             destruct (blen d <=? t) eqn:Et; [|exact I].
+             exists 1%nat. split; [rewrite Hdone; cbn [length]; lia|].
+             rewrite Hst1, live_file_snoc. f_equal. apply take_ge. lia.
+      + (* nothing written: skipped or rejected *)
+        replace (0 <=? kk)%nat with true by (symmetry; apply Nat.leb_le; lia).
+        replace (kk - 0)%nat with kk by lia.
+        apply (image_spec_shift st (c, d) r s (fst (fe_put s (c, d))) kk t);
+          [rewrite abs_put_stored, Est; reflexivity| |].
+        * rewrite Hdone. replace (0 <=? kk)%nat with true by (symmetry; apply Nat.leb_le; lia).
+          replace (kk - 0)%nat with kk by lia. reflexivity.
+        * assert (Hsw : sess_writes st (@cons block (c, d) r) = sess_writes st r).
+          { cbn [sess_writes]. rewrite Est, abs_put_stored, Est. reflexivity. }
+          rewrite Hsw. apply IH; [exact HI'|]. unfold ResumeInv.budget. unfold block in *. lia.
+  Qed.
 End P.
